@@ -20,7 +20,12 @@ EXPLANATION = (
     "(DELTA_BYTE_ARRAY) the local that carries the previous element is advanced on every path through "
     "the loop body, in the encoder and in the decoder, so both measure prefixes against the immediate "
     "predecessor; (5) the running maximum handed to a bit-width function in the encoders is an unsigned "
-    "variable updated under an unsigned comparison, so the chosen width covers every packed value. "
+    "variable updated under an unsigned comparison, so the chosen width covers every packed value; (7) "
+    "carquet_rle_decoder_skip and carquet_rle_decoder_get_batch, executed abstractly from states inside a "
+    "bit-packed run (bit widths 1/3/8 x 0/3/8/13 values already consumed x n in 1..17; data bytes "
+    "unknown, the group unpacker hooked), report n, lower run_remaining by n and, whenever part of a group "
+    "is readable afterwards, hold the group of value k0+n (unpacked from its input offset) at entry "
+    "(k0+n) % 8 - the position the one-shot decoder would be at. "
     "Decides these clauses, not value equality of decode(encode(v)) for DELTA_*, dictionary or RLE.")
 
 RLE = "src/encoding/rle.c"
@@ -72,6 +77,10 @@ def run(ctx):
     ctx.clause("C11.4 incremental codecs advance their predecessor reference on every iteration (encoder and decoder)")
     ctx.clause("C11.5 a bit width is computed from a maximum taken in unsigned arithmetic")
     ctx.clause("C11.6 the hybrid encoder writes pending literals before a run (exhaustive over its control state)")
+    ctx.clause("C11.7 inside a bit-packed run, skip(n) and get_batch(n) leave the streaming decoder at value k0+n with the matching group in its buffer")
+    from ..rules import rlestream
+    nrs = rlestream.check(ctx)
+    ctx.floor("C11 stream-decoder position scenarios", nrs, 100)
     run_pad_rule(ctx)
     run_order_rule(ctx)
 
